@@ -7,6 +7,8 @@ import TTProofs.Lemmas.C09_Discrete
 import TTProofs.Lemmas.C09_Single
 import TTProofs.Lemmas.C09_Refine
 import TTProofs.Lemmas.C09_Unit
+import TTProofs.Lemmas.C09_Const
+import TTProofs.Lemmas.C09_SingleRem
 /-!
 # C09 — birth–death skyline density agrees across epochs and with the constant model; JSON options select
 the behaviour they name
@@ -172,12 +174,197 @@ theorem single_epoch_eq_constant (r : Rates ℝ) (t : Nat → ℝ) (T : ℝ) (h0
       rw [Real.log_div hnum hZne, hlognum]
       linarith [hrholog, h4]
 
+/-- the same density when a sampled individual is removed only with probability `r` (otherwise it stays and must leave
+no further sampled descendant: factor `r + (1 - r) p0(y)` per `psi`-sampled tip; at the present `p0 = 1`), for the
+LABELLED tree (`2^(n-1)` orientations), as `PiecewiseConstantBirthDeath` returns it with a removal probability -/
+noncomputable def constDensityRemoval (lam mu psi rho r T : ℝ) (ints serial : List ℝ) (N : ℕ) (surv : Bool) : ℝ :=
+  2 ^ ints.length * (lam ^ ints.length * psi ^ serial.length * (4 * rho) ^ N
+    * ((T :: ints).map fun x => 1 / q10 (c1 lam mu psi) (c2 lam mu psi rho) x).prod
+    * (serial.map fun y => (r + (1 - r) * p10 lam mu psi (c1 lam mu psi) (c2 lam mu psi rho) y)
+        * q10 (c1 lam mu psi) (c2 lam mu psi rho) y).prod)
+    / (if surv then 1 - p10 lam mu psi (c1 lam mu psi) (c2 lam mu psi rho) T else 1)
+
+/-- **single_epoch_eq_constant_removal**: the single-epoch skyline with a removal probability `r` (any value, `r ≠ 1`
+included) is the logarithm of that density; `hstay`: the factor of every `psi`-sampled tip is positive (true as soon as
+`r > 0` or `p0 > 0`) -/
+theorem single_epoch_eq_constant_removal (r : Rates ℝ) (rr : Nat → ℝ) (t : Nat → ℝ) (T : ℝ) (h0 : t 0 = 0) (h1 : t 1 = T)
+    (surv : Bool) (tips ints : List ℝ) (hT : 0 < T)
+    (hints : ∀ h ∈ ints, 0 < h ∧ h < T) (htips : ∀ h ∈ tips, 0 ≤ h ∧ h < T)
+    (hlam : 0 < r.lam 0) (hpsi : 0 < r.psi 0) (hrho : 0 ≤ r.rho 0)
+    (hn : ints.length + 1 = tips.length)
+    (hZ : surv = true → p10 (r.lam 0) (r.mu 0) (r.psi 0) (c1 (r.lam 0) (r.mu 0) (r.psi 0))
+      (c2 (r.lam 0) (r.mu 0) (r.psi 0) (r.rho 0)) T < 1)
+    (hstay : ∀ y ∈ tips.filter (fun h => ¬ (h = 0 ∧ 0 < r.rho 0)),
+      0 < rr 0 + (1 - rr 0) * p10 (r.lam 0) (r.mu 0) (r.psi 0) (c1 (r.lam 0) (r.mu 0) (r.psi 0))
+        (c2 (r.lam 0) (r.mu 0) (r.psi 0) (r.rho 0)) y) :
+    logProb r (some rr) t 1 surv tips ints =
+      Real.log (constDensityRemoval (r.lam 0) (r.mu 0) (r.psi 0) (r.rho 0) (rr 0) T ints
+        (tips.filter fun h => ¬ (h = 0 ∧ 0 < r.rho 0))
+        (tips.filter fun h => h = 0 ∧ 0 < r.rho 0).length surv) := by
+  rw [logProb_single_rem r rr t T h0 h1 surv tips ints hT hints htips]
+  unfold constDensityRemoval
+  rw [← Acoef_eq_c1, ← Bcoef_eq_c2] at hZ hstay ⊢
+  set A := Acoef r 0 with hAdef
+  set B := Bcoef r 0 1 with hBdef
+  set serial := tips.filter fun h => ¬ (h = 0 ∧ 0 < r.rho 0) with hserial
+  set N := (tips.filter fun h => h = 0 ∧ 0 < r.rho 0).length with hN
+  have hA : 0 < A := Acoef_pos r 0 (mul_pos hlam hpsi)
+  have hB : -1 ≤ B := Bcoef_ge_neg_one r 0 1 (mul_pos hlam hpsi) hlam.le zero_le_one le_rfl hrho
+  have hD : ∀ a : ℝ, 0 ≤ a → Real.exp (A * a) * (1 + B) + (1 - B) ≠ 0 := by
+    intro a ha
+    have := denom_ge_two A B a hB (mul_nonneg hA.le ha)
+    linarith
+  have hq : ∀ a : ℝ, 0 ≤ a → 0 < q10 A B a := fun a ha => q10_pos A B a (hD a ha)
+  have hlq : ∀ a : ℝ, 0 ≤ a → Real.log (qv A B a) = Real.log 4 - Real.log (q10 A B a) := by
+    intro a ha
+    rw [qv_eq_four_div_q10, Real.log_div (by norm_num) (hq a ha).ne']
+  have hp : pStep r 0 T 1 = p10 (r.lam 0) (r.mu 0) (r.psi 0) A B T := by
+    rw [pStep_eq_pClosed, pClosed_eq_p10 _ _ _ _ _ _ (hD T hT.le)]
+  have hserial_mem : ∀ h ∈ serial, 0 ≤ h := fun h hm => (htips h (List.mem_of_mem_filter hm)).1
+  -- the model side, term by term
+  have e1 : (ints.map fun h => Real.log (r.lam 0) + Real.log (qv A B h)).sum
+      = ints.length * (Real.log (r.lam 0) + Real.log 4) - (ints.map fun h => Real.log (q10 A B h)).sum := by
+    have : (ints.map fun h => Real.log (r.lam 0) + Real.log (qv A B h))
+        = ints.map fun h => (Real.log (r.lam 0) + Real.log 4) - Real.log (q10 A B h) := by
+      apply List.map_congr_left
+      intro h hm
+      rw [hlq h (hints h hm).1.le]; ring
+    rw [this, sum_map_const_sub]
+  have e2 : (tips.map fun h => if h = 0 ∧ 0 < r.rho 0 then 0
+        else Real.log (r.psi 0 * (rr 0 + (1 - rr 0) * pClosed (r.lam 0) (r.mu 0) (r.psi 0) A B h)) - Real.log (qv A B h)).sum
+      = serial.length * (Real.log (r.psi 0) - Real.log 4)
+        + (serial.map fun h => Real.log ((rr 0 + (1 - rr 0) * p10 (r.lam 0) (r.mu 0) (r.psi 0) A B h) * q10 A B h)).sum := by
+    rw [sum_ite_filter tips (fun h => h = 0 ∧ 0 < r.rho 0)]
+    have : (serial.map fun h => Real.log (r.psi 0 * (rr 0 + (1 - rr 0) * pClosed (r.lam 0) (r.mu 0) (r.psi 0) A B h))
+          - Real.log (qv A B h))
+        = serial.map fun h => (Real.log (r.psi 0) - Real.log 4)
+          + Real.log ((rr 0 + (1 - rr 0) * p10 (r.lam 0) (r.mu 0) (r.psi 0) A B h) * q10 A B h) := by
+      apply List.map_congr_left
+      intro h hm
+      have hh := hserial_mem h hm
+      rw [hlq h hh, pClosed_eq_p10 _ _ _ _ _ _ (hD h hh), Real.log_mul hpsi.ne' (hstay h hm).ne',
+        Real.log_mul (hstay h hm).ne' (hq h hh).ne']
+      ring
+    rw [← hserial, this, sum_map_const_add]
+  have hcount : (serial.length : ℝ) + N = ints.length + 1 := by
+    have := length_filter_split tips (fun h => h = 0 ∧ 0 < r.rho 0)
+    rw [← hserial, ← hN] at this
+    have h2 : serial.length + N = ints.length + 1 := by omega
+    exact_mod_cast h2
+  -- the spec side
+  have hl1 : ∀ x ∈ (T :: ints), (fun x => 1 / q10 A B x) x ≠ 0 := by
+    intro x hx
+    have hx0 : 0 ≤ x := by
+      rcases List.mem_cons.mp hx with e | e
+      · rw [e]; exact hT.le
+      · exact (hints x e).1.le
+    exact one_div_ne_zero (hq x hx0).ne'
+  have hl2 : ∀ y ∈ serial, (fun y => (rr 0 + (1 - rr 0) * p10 (r.lam 0) (r.mu 0) (r.psi 0) A B y) * q10 A B y) y ≠ 0 :=
+    fun y hy => mul_ne_zero (hstay y hy).ne' (hq y (hserial_mem y hy)).ne'
+  have hP1 : Real.log ((T :: ints).map fun x => 1 / q10 A B x).prod
+      = -Real.log (q10 A B T) - (ints.map fun h => Real.log (q10 A B h)).sum := by
+    rw [log_prod_map _ _ hl1]
+    simp only [List.map_cons, List.sum_cons, one_div, Real.log_inv]
+    have : (ints.map fun a => -Real.log (q10 A B a)).sum = -(ints.map fun a => Real.log (q10 A B a)).sum := by
+      have := sum_map_const_sub ints 0 (fun a => Real.log (q10 A B a))
+      simpa using this
+    rw [this]; ring
+  have hP2 : Real.log (serial.map fun y => (rr 0 + (1 - rr 0) * p10 (r.lam 0) (r.mu 0) (r.psi 0) A B y) * q10 A B y).prod
+      = (serial.map fun h => Real.log ((rr 0 + (1 - rr 0) * p10 (r.lam 0) (r.mu 0) (r.psi 0) A B h) * q10 A B h)).sum :=
+    log_prod_map _ _ hl2
+  have hP1ne : ((T :: ints).map fun x => 1 / q10 A B x).prod ≠ 0 := by
+    apply List.prod_ne_zero
+    simp only [List.mem_map, not_exists, not_and]
+    intro x hx e; exact hl1 x hx e
+  have hP2ne : (serial.map fun y => (rr 0 + (1 - rr 0) * p10 (r.lam 0) (r.mu 0) (r.psi 0) A B y) * q10 A B y).prod ≠ 0 := by
+    apply List.prod_ne_zero
+    simp only [List.mem_map, not_exists, not_and]
+    intro x hx e; exact hl2 x hx e
+  have hlamk : (r.lam 0) ^ ints.length ≠ 0 := pow_ne_zero _ hlam.ne'
+  have hpsiS : (r.psi 0) ^ serial.length ≠ 0 := pow_ne_zero _ hpsi.ne'
+  -- rho-dependent part
+  have hrhoPart : ((4 * r.rho 0) ^ N ≠ 0) ∧
+      Real.log ((4 * r.rho 0) ^ N) + 0 = N * Real.log 4 +
+        ((tips.filter (· = 0)).length : ℝ)
+          * Real.log (if 0 < (tips.filter (· = 0)).length ∧ 0 < r.rho 0 then r.rho 0 else 1) := by
+    by_cases hr : 0 < r.rho 0
+    · have hNeq : N = (tips.filter (· = 0)).length := by
+        rw [hN]; congr 1; apply List.filter_congr; intro h _; simp [hr]
+      refine ⟨pow_ne_zero _ (mul_ne_zero (by norm_num) hr.ne'), ?_⟩
+      rw [Real.log_pow, Real.log_mul (by norm_num) hr.ne', ← hNeq]
+      by_cases hN0 : 0 < N
+      · simp [hN0, hr]; ring
+      · have : N = 0 := by omega
+        simp [this]
+    · have hN0 : N = 0 := by
+        rw [hN]; simp [hr]
+      refine ⟨by rw [hN0]; simp, ?_⟩
+      simp [hN0, hr]
+  obtain ⟨hrhone, hrholog⟩ := hrhoPart
+  have h2k : (2:ℝ) ^ ints.length ≠ 0 := pow_ne_zero _ (by norm_num)
+  have hnum0 : (r.lam 0) ^ ints.length * (r.psi 0) ^ serial.length * (4 * r.rho 0) ^ N
+      * ((T :: ints).map fun x => 1 / q10 A B x).prod * (serial.map fun y => (rr 0 + (1 - rr 0) * p10 (r.lam 0) (r.mu 0) (r.psi 0) A B y) * q10 A B y).prod ≠ 0 :=
+    mul_ne_zero (mul_ne_zero (mul_ne_zero (mul_ne_zero hlamk hpsiS) hrhone) hP1ne) hP2ne
+  have hnum : (2:ℝ) ^ ints.length * ((r.lam 0) ^ ints.length * (r.psi 0) ^ serial.length * (4 * r.rho 0) ^ N
+      * ((T :: ints).map fun x => 1 / q10 A B x).prod * (serial.map fun y => (rr 0 + (1 - rr 0) * p10 (r.lam 0) (r.mu 0) (r.psi 0) A B y) * q10 A B y).prod) ≠ 0 := mul_ne_zero h2k hnum0
+  have hlognum : Real.log ((2:ℝ) ^ ints.length * ((r.lam 0) ^ ints.length * (r.psi 0) ^ serial.length * (4 * r.rho 0) ^ N
+      * ((T :: ints).map fun x => 1 / q10 A B x).prod * (serial.map fun y => (rr 0 + (1 - rr 0) * p10 (r.lam 0) (r.mu 0) (r.psi 0) A B y) * q10 A B y).prod))
+      = ints.length * Real.log 2 + (ints.length * Real.log (r.lam 0) + serial.length * Real.log (r.psi 0) + Real.log ((4 * r.rho 0) ^ N)
+        + (-Real.log (q10 A B T) - (ints.map fun h => Real.log (q10 A B h)).sum)
+        + (serial.map fun h => Real.log ((rr 0 + (1 - rr 0) * p10 (r.lam 0) (r.mu 0) (r.psi 0) A B h) * q10 A B h)).sum) := by
+    rw [Real.log_mul h2k hnum0, Real.log_pow, Real.log_mul (mul_ne_zero (mul_ne_zero (mul_ne_zero hlamk hpsiS) hrhone) hP1ne) hP2ne,
+      Real.log_mul (mul_ne_zero (mul_ne_zero hlamk hpsiS) hrhone) hP1ne,
+      Real.log_mul (mul_ne_zero hlamk hpsiS) hrhone, Real.log_mul hlamk hpsiS, Real.log_pow, Real.log_pow, hP1, hP2]
+  have h4 : (serial.length : ℝ) * Real.log 4 + N * Real.log 4 = ints.length * Real.log 4 + Real.log 4 := by
+    rw [← add_mul, hcount]; ring
+  have hlen : ((tips.length - 1 : ℕ) : ℝ) = ints.length := by
+    have : tips.length - 1 = ints.length := by omega
+    rw [this]
+  rw [hp, hlq T hT.le, e1, e2, hlen]
+  cases surv with
+  | false =>
+      simp only [Bool.false_eq_true, ↓reduceIte, div_one, sub_zero]
+      rw [hlognum]
+      linarith [hrholog, h4]
+  | true =>
+      have hZ' := hZ rfl
+      have hZne : (1 - p10 (r.lam 0) (r.mu 0) (r.psi 0) A B T) ≠ 0 := by linarith
+      simp only [↓reduceIte]
+      rw [Real.log_div hnum hZne, hlognum]
+      linarith [hrholog, h4]
+
 /-- non-vacuity (survival off): two tips, one at the present, one of age 1/2, root age 1, origin 2 -/
 example : ∃ (r : Rates ℝ) (t : Nat → ℝ), t 0 = 0 ∧ t 1 = 2 ∧ (∀ h ∈ [(1:ℝ)], 0 < h ∧ h < 2) ∧
     (∀ h ∈ [(0:ℝ), 1/2], 0 ≤ h ∧ h < 2) ∧ 0 < r.lam 0 ∧ 0 < r.psi 0 ∧ 0 ≤ r.rho 0 ∧
     [(1:ℝ)].length + 1 = [(0:ℝ), 1/2].length := by
   refine ⟨⟨fun _ => 2, fun _ => 1, fun _ => 1/2, fun _ => 1/4⟩, fun k => if k = 0 then 0 else 2, ?_, ?_, ?_, ?_,
     ?_, ?_, ?_, rfl⟩ <;> norm_num
+
+/-! ## the constant-rate class `BirthDeath` -/
+
+/-- **constant_model_eq_single_epoch**: `BirthDeath.log_prob` (model `logProbConst`; as repaired, a tip at the present is
+`rho`-sampled iff `rho > 0`) equals the single-epoch skyline `PiecewiseConstantBirthDeath.log_prob` for every input of the
+domain: any tips in `[0, T)`, internal ages in `(0, T)`, any rates, survival on/off — no positivity needed, the two
+expressions coincide term by term. -/
+theorem constant_model_eq_single_epoch (r : Rates ℝ) (t : Nat → ℝ) (T : ℝ) (h0 : t 0 = 0) (h1 : t 1 = T)
+    (surv : Bool) (tips ints : List ℝ) (hT : 0 < T)
+    (hints : ∀ h ∈ ints, 0 < h ∧ h < T) (htips : ∀ h ∈ tips, 0 ≤ h ∧ h < T) :
+    logProbConst (r.lam 0) (r.mu 0) (r.psi 0) (r.rho 0) T surv tips ints = logProb r none t 1 surv tips ints :=
+  logProbConst_eq_single r t T h0 h1 surv tips ints hT hints htips
+
+/-- … hence the constant model is the logarithm of the independently written constant-rate density -/
+theorem constant_model_eq_constDensity (lam mu psi rho T : ℝ) (surv : Bool) (tips ints : List ℝ) (hT : 0 < T)
+    (hints : ∀ h ∈ ints, 0 < h ∧ h < T) (htips : ∀ h ∈ tips, 0 ≤ h ∧ h < T)
+    (hlam : 0 < lam) (hpsi : 0 < psi) (hrho : 0 ≤ rho) (hn : ints.length + 1 = tips.length)
+    (hZ : surv = true → p10 lam mu psi (c1 lam mu psi) (c2 lam mu psi rho) T < 1) :
+    logProbConst lam mu psi rho T surv tips ints =
+      Real.log (constDensity lam mu psi rho T ints (tips.filter fun h => ¬ (h = 0 ∧ 0 < rho))
+        (tips.filter fun h => h = 0 ∧ 0 < rho).length surv) := by
+  have h := constant_model_eq_single_epoch ⟨fun _ => lam, fun _ => mu, fun _ => psi, fun _ => rho⟩
+    (fun k => if k = 0 then 0 else T) T (by simp) (by simp) surv tips ints hT hints htips
+  rw [h]
+  exact single_epoch_eq_constant ⟨fun _ => lam, fun _ => mu, fun _ => psi, fun _ => rho⟩
+    (fun k => if k = 0 then 0 else T) T (by simp) (by simp) surv tips ints hT hints htips hlam hpsi hrho hn hZ
 
 /-! ## identical rates across a boundary without sampling: `p` continues, `q` composes -/
 
